@@ -10,7 +10,7 @@ use slotted_egraphs::*;
 use std::collections::HashMap;
 
 /// (name, lhs, rhs, explicit side conditions (slot, var)) — must equal `Rules.pool` in the Lean model
-pub const POOL: [(&str, &str, &str, &[(&str, &str)]); 34] = [
+pub const POOL: [(&str, &str, &str, &[(&str, &str)]); 35] = [
     ("add-comm", "(add ?a ?b)", "(add ?b ?a)", &[]),
     ("add-assoc", "(add (add ?a ?b) ?c)", "(add ?a (add ?b ?c))", &[]),
     ("mul-comm", "(mul ?a ?b)", "(mul ?b ?a)", &[]),
@@ -45,6 +45,7 @@ pub const POOL: [(&str, &str, &str, &[(&str, &str)]); 34] = [
     ("sum-infactor-var", "(mul ?a (sum $i (mul (var $i) ?b)))", "(sum $i (mul (var $i) (mul ?a ?b)))", &[]),
     ("let-intro", "(mul ?a ?b)", "(let $x (mul (mul (var $x) ?a) ?b) 1)", &[]),
     ("let-let-subst", "(let $x (let $y ?b ?f) ?e)", "?b[(var $y) := ?f][(var $x) := ?e]", &[]),
+    ("sum2-const", "(sum $x (sum $y ?c))", "(mul 3 (mul 3 ?c))", &[("x", "c"), ("y", "c")]),
 ];
 
 pub const BAD_POOL: [(&str, &str, &str, &[(&str, &str)]); 2] = [
@@ -516,6 +517,25 @@ pub fn run(ctx: &mut Ctx) {
             start = if rng.chance(1, 2) { vec![t] } else { vec![t, bin(4, bin(5, var(a), num("2")), bin(5, var(a), num("2")))] };
             force.push("let-let-subst");
         }
+        let mut force_helper = false;
+        if !bad && force.is_empty() && rng.chance(1, 10) {
+            // a rule with two side conditions, built with the crate's `and` combinator: a double summation whose body mentions
+            // none, one or both of the indices — the rule may fire in the first case only
+            let var = |c: u32| ATerm { v: 2, fields: vec![CField::Slot(c)], children: vec![] };
+            let bin = |v: usize, a: ATerm, b: ATerm| ATerm { v, fields: vec![CField::App, CField::App], children: vec![a, b] };
+            let sum = |x: u32, b: ATerm| ATerm { v: 6, fields: vec![CField::Bind(x, Box::new(CField::App))], children: vec![b] };
+            let (x, y, a) = (10u32, 14u32, 4u32);
+            let body = match rng.below(5) {
+                0 => var(a),
+                1 => bin(4, var(a), var(x)),
+                2 => bin(5, var(y), var(a)),
+                3 => var(y),
+                _ => bin(4, var(x), var(y)),
+            };
+            start = vec![sum(x, sum(y, body))];
+            force.push("sum2-const");
+            force_helper = true;
+        }
         let mut solo = false;
         if !bad && force.is_empty() && rng.chance(1, 12) {
             // a binding whose bound variable sits more than thirty levels deep in its body (a right-nested chain of sums and
@@ -557,7 +577,7 @@ pub fn run(ctx: &mut Ctx) {
         }
         let iters = if solo { 1 } else { rng.range(1, 4) };
         let ext = force_ext || allow_extraction && force.is_empty() && rng.chance(1, 3);
-        let helper = rng.chance(1, 2);
+        let helper = force_helper || rng.chance(1, 2);
         ctx.emit(exec_rw(start, idx, iters, ext, helper, bad));
     }
 }
